@@ -90,9 +90,11 @@ class MarkerTheory:
             out[c] = row
         return out
 
-    def axioms(self, make_exec):
+    def axioms(self, make_exec, with_names=True):
+        """with_names=False leaves out the (string-valued) definition of uses/inside on single markers: the combinator
+        proofs never look inside a single marker, and keeping strings out of their VCs keeps them in LIA+arrays+UF"""
         if self._axioms is not None:
-            return self._axioms
+            return self._axioms if with_names else [a for a in self._axioms if not getattr(a, "_names", False)]
         m, x, y = z3.Const("m!ax", MK), z3.Const("x!ax", MK), z3.Const("y!ax", MK)
         ax = [cls_of(ANY) == CID["AnyMarker"], cls_of(EMPTY) == CID["EmptyMarker"],
               z3.ForAll([m], z3.And(cls_of(m) >= 0, cls_of(m) < len(CLASSES), nkids(m) >= 0)),
@@ -118,14 +120,16 @@ class MarkerTheory:
             if c in ("MultiMarker", "MarkerUnion"):
                 i = z3.Int("i!ax")
                 ax.append(z3.ForAll([m], z3.Implies(cls_of(m) == CID[c], uses(m) == z3.Exists([i], z3.And(0 <= i, i < nkids(m), uses(z3.Select(kids(m), i)))))))
-        ax.append(z3.ForAll([m], z3.Implies(is_cls(m, *SINGLE), z3.And(uses(m) == (name_of(m) == X), inside(m) == in_names(name_of(m))))))
+        nm = z3.ForAll([m], z3.Implies(is_cls(m, *SINGLE), z3.And(uses(m) == (name_of(m) == X), inside(m) == in_names(name_of(m)))))
+        nm._names = True
+        ax.append(nm)
         ax.append(z3.ForAll([m], z3.Implies(is_cls(m, "AnyMarker", "EmptyMarker"), inside(m))))
         i2 = z3.Int("j!ax")
         ax.append(z3.ForAll([m], z3.Implies(is_cls(m, "MultiMarker", "MarkerUnion"),
                                             inside(m) == z3.ForAll([i2], z3.Implies(z3.And(0 <= i2, i2 < nkids(m)), inside(z3.Select(kids(m), i2)))))))
         ax.append(z3.ForAll([x, y], z3.Implies(eqm(x, y), inside(x) == inside(y))))
         self._axioms = ax
-        return ax
+        return ax if with_names else [a for a in ax if not getattr(a, "_names", False)]
 
     # ---------------------------------------------------------------- executor protocol
     def external(self, ex, mod, name):
@@ -163,6 +167,15 @@ class MarkerTheory:
             from ..values import BoundMethod
             f, _ = self.index.find_method(self.index.cls("SingleMarker"), attr)
             return BoundMethod(o, f)       # the real SingleMarker method (inlined, or its contract if the task says so)
+        if attr == "complexity":
+            return z3.Int(fresh_name("complexity"))      # only used as a sort key: an unconstrained measure
+        if attr == "of":
+            from ..values import BoundMethod
+            for kind in ("MultiMarker", "MarkerUnion"):
+                if ex.decide(is_cls(t, kind)) is True:
+                    f, _ = self.index.find_method(self.index.cls(kind), "of")
+                    return BoundMethod(ClassRef(self.index.cls(kind)), f)
+            raise OutsideSubset("of() on a marker of unknown class")
         if attr in self.method_contracts and self.method_contracts[attr] is not None:
             fn = self.method_contracts[attr]
             return _Method(lambda *a, **k: fn(ex, o, list(a)))
